@@ -156,6 +156,16 @@ func checkC16(c *Ctx, w *World) {
 			c.fail("C16.validate-first", construct, p.ipos(r), "an update can be rejected after routing-relevant effects already happened ("+strings.Join(before, "; ")+"): "+why)
 		}
 	}
+	// (counted per way out: a single `return err` merged from several failing ways is as many error exits)
+	nerrWays := 0
+	for _, vr := range newCondSpace(upd, nil).VirtualReturns() {
+		if !isNilConst(stripConv(vr.Vals[0])) {
+			nerrWays++
+		}
+	}
+	if nerrWays > nerr {
+		nerr = nerrWays
+	}
 	c.floor("C16.validate-first", nerr, 3)
 
 	// ---- C16.errors
@@ -226,7 +236,8 @@ func checkC16(c *Ctx, w *World) {
 			}
 			after := false
 			for _, u := range updCalls {
-				if mayPrecede(u, r) {
+				// (on this way out: a merged exit is also reached on ways that never came to the update)
+				if mayPrecede(u, r) && ccs.Satisfiable(and(vr.Cond, ccs.Reach(u))) {
 					after = true
 				}
 			}
